@@ -59,29 +59,41 @@ def inputs(rnd, n):
     return out
 
 
+def one_input(job):
+    raw, kind, role_args, role, style, threaded, seed = job
+    rnd = random.Random(seed)
+    conv = scen.Conversation(args=role_args, threaded=threaded)
+    c = conv.client()
+    if role.endswith('sends'):
+        c.sock.cap = 40          # the wire towards the client takes 40 bytes at a time: partial writes and EAGAIN
+    for piece in scen.pieces(raw, rnd, style) if raw else [b'']:
+        if piece:
+            conv.step(('c', piece))
+    conv.step(('u', 1, RESP))           # an origin, if one was connected, answers
+    conv.step(('tick', 3))
+    t = conv.transcript()
+    case = {'input': list(raw), 'cgot': list(t['clients'][0]['got']), 'ceof': t['clients'][0]['eof'],
+            'nconnect': len(t['connects']), 'loopdied': not t['alive'], 'tunnel': raw.startswith(b'CONNECT ')}
+    desc = {'kind': kind, 'role': role + (', threaded mode' if threaded else ''), 'segments': style, 'loop_error': t['loop_error']}
+    return case, desc
+
+
 def run_inputs(chk, quick):
+    from harness.common import pmap
     rnd = random.Random(chk.seed * 31 + 9)
-    cases, descs = [], {}
-    for raw, kind in inputs(rnd, 420 if quick else 4000):
+    jobs = []
+    for raw, kind in inputs(rnd, 420 if quick else 2500):
         for role_args, role in (([], 'proxy'), (['--enable-web-server'], 'proxy+web'), (['--enable-web-server', '--max-sendbuf-size', '24'], 'proxy+web, 24-byte sends')):
             if role.endswith('sends') and rnd.random() > 0.4:
                 continue
             style = rnd.choice(['one', 'two', 'few', 'crlf'])
-            threaded = len(cases) % 5 == 4
-            conv = scen.Conversation(args=role_args, threaded=threaded)
-            c = conv.client()
-            if role.endswith('sends'):
-                c.sock.cap = 40          # the wire towards the client takes 40 bytes at a time: partial writes and EAGAIN
-            for piece in scen.pieces(raw, rnd, style) if raw else [b'']:
-                if piece:
-                    conv.step(('c', piece))
-            conv.step(('u', 1, RESP))           # an origin, if one was connected, answers
-            conv.step(('tick', 3))
-            t = conv.transcript()
-            cid = len(cases) + 1
-            cases.append({'id': cid, 'input': list(raw), 'cgot': list(t['clients'][0]['got']), 'ceof': t['clients'][0]['eof'],
-                          'nconnect': len(t['connects']), 'loopdied': not t['alive'], 'tunnel': raw.startswith(b'CONNECT ')})
-            descs[cid] = {'kind': kind, 'role': role + (', threaded mode' if threaded else ''), 'segments': style, 'loop_error': t['loop_error']}
+            jobs.append((raw, kind, role_args, role, style, len(jobs) % 5 == 4, rnd.randrange(1 << 30)))
+    cases, descs = [], {}
+    for case, desc in pmap(one_input, jobs):
+        cid = len(cases) + 1
+        case['id'] = cid
+        cases.append(case)
+        descs[cid] = desc
     results, rej = tlc.run_sharded('TraceInput', 'TraceInput.cfg', cases, shards=16, timeout=1200)
     m = tlc.Merged(results)
     chk.add_tlc('TraceInput (%d connections)' % len(cases), m)
